@@ -112,6 +112,19 @@ def machinery(ctx, rule):
     ctx.ob(rule, fi, bool(amt), "Transformed._build rejects output whose length differs from encodeamount", key="Transformed _build amount")
 
 
+def restreamed_sizeof(ctx, rule):
+    fi, paths = own_method_paths(ctx, "Restreamed", "_sizeof")
+    sc = N.selfattr("sizecomputer")
+    none = [p for p in paths if N.mk_cmp("is", sc, N.NONE) in p.guards()]
+    some = [p for p in paths if N.mk_cmp("is not", sc, N.NONE) in p.guards()]
+    ok = bool(none) and all(p.outcome[0] == "raise" and p.outcome[1].get("cls") == "SizeofError" for p in none) and bool(some)
+    for p in some:
+        if p.returns:
+            subs = [e for e in p.events if e.kind == "SUB" and e["m"] == "_sizeof" and e["target"] == N.selfattr("subcon")]
+            ok = ok and len(subs) == 1 and p.retval == ("call", sc, (subs[0]["res"],), ())
+    ctx.ob(rule, fi, ok, "Restreamed._sizeof is sizecomputer(subcon size) when a size computer was given and SizeofError when none was", key="Restreamed sizeof")
+
+
 def check_macros(ctx, names, R1, R2, R4):
     M = ctx.model
     sites = 0
@@ -226,8 +239,8 @@ def rest(ctx):
         good = good and (r == rb or (r[0] == "lv" and r[3] == rb)) and bool(w) and w[-1]["value"] == N.const(b"")
         inloop = [e for e in w if e.loops]
         good = good and all(e["value"][0] in ("uconcat", "concat") and e["value"][1] in (rb, r) or e["value"][1][0] == "lv" for e in inloop)
-        if any(e.kind == "ITER" for e in p.events) and any(e.kind == "CALL" and e["func"] == N.selfattr("decoder") for e in p.events):
-            good = good and bool(inloop)          # a chunk that was decoded is appended
+        if any(e.kind == "ITER" for e in p.events) and any(c[0] == "bool" and c[1] == "and" and any(x[0] == "cmp" and x[1] == "is not" and x[2][0] == "rawio" for x in c[2]) for c in p.guards()):
+            good = good and bool(inloop) and any(e.kind == "CALL" and e["func"] == N.selfattr("decoder") for e in p.events)          # a chunk that was read is decoded and appended
         sw = [e["value"] for e in p.events if e.kind == "SELFWRITE" and e["attr"] == "sincereadwritten"]
         good = good and len(sw) == 1 and sw[0] == N.mk_add(N.selfattr("sincereadwritten"), ("call", ("free", "len"), (r,), ()))
     ctx.ob("C10.R4", fi, good, "read() to the end returns the pending units followed by every decoded chunk in order, empties the buffer and advances tell() by what it returned", key="read all")
@@ -301,7 +314,8 @@ def rest(ctx):
     unused_parameters(ctx, "C10.R5", lambda f: f.relpath.endswith(("lib/binary.py", "lib/bitstream.py")))      # e.g. a `signed` or `swapped` flag accepted and ignored
     # ---- R6: the two machines the macros instantiate: the inner construct only ever sees the decoded view
     machinery(ctx, "C10.R6")
-    ctx.floor("C10.R6", 9)
+    restreamed_sizeof(ctx, "C10.R6")
+    ctx.floor("C10.R6", 10)
     # which of the two region implementations runs is decided by subcon.sizeof(): the sizing methods are side-effect free and translate a
     # missing key (e.g. this._index in an element width) into SizeofError instead of inventing a value (shared with C05.R1)
     from . import C05
